@@ -5,6 +5,7 @@ import (
 	"encoding/json"
 	"fmt"
 	"hash/fnv"
+	"io"
 	"net"
 	"os"
 	"testing"
@@ -22,9 +23,11 @@ import (
 )
 
 type Cfg struct {
-	Map  string `json:"map"`
-	Norm string `json:"norm"`
-	Len  int    `json:"len"`
+	Map   string `json:"map"`
+	Norm  string `json:"norm"`
+	Tbl   string `json:"tbl"`   // "mem" | "sql"
+	Defer bool   `json:"defer"` // defer_sender_reject
+	Len   int    `json:"len"`
 }
 
 type Step struct {
@@ -35,6 +38,7 @@ type Step struct {
 	Fail bool   `json:"fail"`
 	Mech string `json:"mech"`
 	Az   string `json:"az"`
+	Mf   string `json:"mf"`
 }
 
 type Behaviour struct {
@@ -82,11 +86,19 @@ func mapConfig(id string) (directive string, err error) {
 	return "", fmt.Errorf("unknown map id %q", id)
 }
 
+// failTable is a mutable table module whose next write can be made to fail.
+type failTable interface {
+	module.Module
+	module.MutableTable
+	SetFail(bool)
+}
+
 type world struct {
 	t    *testing.T
 	b    Behaviour
 	tr   *vtrace.Tracer
-	tbl  *authkit.MemTable
+	tbl  failTable
+	sqlD string // scratch directory of the sqlite database (sql histories)
 	pt   *pass_table.Auth
 	endp *smtpendp.Endpoint
 	sasl *auth.SASLAuth
@@ -99,7 +111,23 @@ func newWorld(t *testing.T, b Behaviour, tr *vtrace.Tracer) *world {
 	w := &world{t: t, b: b, tr: tr}
 	tblName := fmt.Sprintf("c14tbl%d", b.ID)
 	ptName := fmt.Sprintf("c14auth%d", b.ID)
-	w.tbl = authkit.NewMemTable(tblName)
+	switch b.Cfg.Tbl {
+	case "sql":
+		// the real table.sql_table on a private sqlite3 database, as in maddy's default configuration
+		dir, err := os.MkdirTemp(os.Getenv("VERIF_TMP"), "sql")
+		if err != nil {
+			t.Fatal(err)
+		}
+		w.sqlD = dir
+		m, err := authkit.InitFromText("table.sql_table", tblName+"_sql", nil,
+			"driver sqlite3\ndsn "+dir+"/credentials.db\ntable_name passwords\n")
+		if err != nil {
+			t.Fatalf("sql_table: %v", err)
+		}
+		w.tbl = &authkit.FailingTable{Inst: tblName, Inner: m.(module.MutableTable)}
+	default:
+		w.tbl = authkit.NewMemTable(tblName)
+	}
 	authkit.RegisterReady(w.tbl)
 
 	// auth.pass_table with the in-memory table behind it, built by its own constructor/Init
@@ -125,6 +153,7 @@ func newWorld(t *testing.T, b Behaviour, tr *vtrace.Tracer) *world {
 		"auth_map_normalize " + b.Cfg.Norm + "\n" +
 		mapDir +
 		"buffer ram\n" +
+		"defer_sender_reject " + map[bool]string{true: "yes", false: "no"}[b.Cfg.Defer] + "\n" +
 		"deliver_to dummy\n"
 	nodes, err := authkit.Nodes(text)
 	if err != nil {
@@ -147,6 +176,14 @@ func newWorld(t *testing.T, b Behaviour, tr *vtrace.Tracer) *world {
 }
 
 func (w *world) close() {
+	if ft, ok := w.tbl.(*authkit.FailingTable); ok {
+		if c, ok := ft.Inner.(io.Closer); ok {
+			c.Close()
+		}
+	}
+	if w.sqlD != "" {
+		os.RemoveAll(w.sqlD)
+	}
 	if w.cl != nil {
 		w.cl.Close()
 		w.cl = nil
@@ -249,20 +286,20 @@ func (w *world) step(s Step) {
 	w.opNo++
 	switch s.A {
 	case "Create":
-		w.tbl.FailNext = s.Fail
+		w.tbl.SetFail(s.Fail)
 		err := w.pt.CreateUserHash(s.Sp.String(), password(s.Pw), s.Sch, pass_table.HashOpts{
 			BcryptCost: 4, Argon2Time: 1, Argon2Memory: 64, Argon2Threads: 1})
-		w.tbl.FailNext = false
+		w.tbl.SetFail(false)
 		w.tr.Emit("Create", vtrace.Ev{"sp": s.Sp, "pw": s.Pw, "sch": s.Sch, "fail": s.Fail, "res": res(err)})
 	case "SetPw":
-		w.tbl.FailNext = s.Fail
+		w.tbl.SetFail(s.Fail)
 		err := w.pt.SetUserPassword(s.Sp.String(), password(s.Pw))
-		w.tbl.FailNext = false
+		w.tbl.SetFail(false)
 		w.tr.Emit("SetPw", vtrace.Ev{"sp": s.Sp, "pw": s.Pw, "fail": s.Fail, "res": res(err)})
 	case "Delete":
-		w.tbl.FailNext = s.Fail
+		w.tbl.SetFail(s.Fail)
 		err := w.pt.DeleteUser(s.Sp.String())
-		w.tbl.FailNext = false
+		w.tbl.SetFail(false)
 		w.tr.Emit("Delete", vtrace.Ev{"sp": s.Sp, "fail": s.Fail, "res": res(err)})
 	case "Auth":
 		var r saslResult
@@ -320,7 +357,22 @@ func (w *world) step(s Step) {
 		w.tr.Emit("SAuth", vtrace.Ev{"mech": s.Mech, "sp": s.Sp, "pw": s.Pw, "res": out, "code": r.Code})
 	case "SMail":
 		w.needConn(s.A)
-		r, err := w.cl.Cmd("MAIL FROM:<someone@example.org>")
+		var line string
+		switch s.Mf {
+		case "addr":
+			line = "MAIL FROM:<someone@example.org>"
+		case "null": // the null reverse-path
+			line = "MAIL FROM:<>"
+		case "nullparam":
+			line = "MAIL FROM:<> BODY=8BITMIME"
+		case "upper":
+			line = "MAIL FROM:<SOMEONE@EXAMPLE.ORG>"
+		case "utf8":
+			line = "MAIL FROM:<zo\u00eb@ex\u00e4mple.org> SMTPUTF8"
+		default:
+			w.t.Fatalf("unknown reverse-path kind %q", s.Mf)
+		}
+		r, err := w.cl.Cmd(line)
 		if err != nil {
 			w.t.Fatalf("MAIL: %v", err)
 		}
@@ -328,7 +380,13 @@ func (w *world) step(s Step) {
 		if r.Code/100 == 2 {
 			out = "ok"
 		}
-		w.tr.Emit("SMail", vtrace.Ev{"res": out, "code": r.Code})
+		w.tr.Emit("SMail", vtrace.Ev{"mf": s.Mf, "res": out, "code": r.Code})
+		// leave the transaction so that the next MAIL starts afresh
+		if out == "ok" {
+			if r, err := w.cl.Cmd("RSET"); err != nil || r.Code != 250 {
+				w.t.Fatalf("RSET: %v %v", r, err)
+			}
+		}
 	case "SRset":
 		w.needConn(s.A)
 		if r, err := w.cl.Cmd("RSET"); err != nil || r.Code != 250 {
@@ -348,13 +406,17 @@ func (w *world) step(s Step) {
 
 func runBehaviour(t *testing.T, b Behaviour, out *bufio.Writer) {
 	tr := vtrace.New(out, b.ID)
-	tr.Emit("Cfg", vtrace.Ev{"map": b.Cfg.Map, "norm": b.Cfg.Norm})
+	if b.Cfg.Tbl == "" {
+		b.Cfg.Tbl = "mem"
+	}
+	tr.Emit("Cfg", vtrace.Ev{"map": b.Cfg.Map, "norm": b.Cfg.Norm, "tbl": b.Cfg.Tbl, "defer": b.Cfg.Defer})
 	w := newWorld(t, b, tr)
 	defer w.close()
 	for _, s := range b.Hist {
 		w.step(s)
 	}
-	tr.Emit("End", vtrace.Ev{"keys": len(w.tbl.Snapshot())})
+	keys, _ := w.tbl.Keys()
+	tr.Emit("End", vtrace.Ev{"keys": len(keys)})
 }
 
 func TestReplay(t *testing.T) {
